@@ -22,7 +22,7 @@ def accessor_contracts():
                                   ensures=[('def', 'result == (self._%s is not None)' % f)] if f != 'sequence' else
                                   [('def', 'result == True')])
         C[PA + f] = dict(params=dict(self='Annotation'), returns=RECORDS['Annotation']['_' + f], pure=True, property=True,
-                         ensures=[('def', 'result == self._%s' % f)])
+                         ensures=[('def', 'same(result, self._%s)' % f)])
     C[PA + 'has_mods'] = dict(
         params=dict(self='Annotation'), returns='bool', pure=True,
         ensures=[('def', 'result == (' + ' or '.join('self._%s is not None' % f for f in
@@ -44,7 +44,7 @@ def setter_contracts(trusted=None):
         C[PA + f + '.setter'] = dict(
             params=dict(self='Annotation', value='None'), returns='None', mutates=['self'],
             ensures=[('field-cleared', 'self_final._%s is None' % f),
-                     ('nothing-else', ' and '.join('self_final.%s == self.%s' % (g, g) for g in others))],
+                     ('nothing-else', ' and '.join('same(self_final.%s, self.%s)' % (g, g) for g in others))],
             raises={})
         if trusted:
             C[PA + f + '.setter'].update(trusted=True, bounded_by=trusted)
@@ -59,8 +59,8 @@ def pop_contracts(trusted=None):
         others = [g for g in ty if g != '_' + f]
         C[PA + 'pop_' + f] = dict(
             params=dict(self='Annotation'), returns=ty['_' + f], mutates=['self'],
-            ensures=[('returns-the-field', 'result == self._%s' % f), ('field-cleared', 'self_final._%s is None' % f),
-                     ('nothing-else', ' and '.join('self_final.%s == self.%s' % (g, g) for g in others))],
+            ensures=[('returns-the-field', 'same(result, self._%s)' % f), ('field-cleared', 'self_final._%s is None' % f),
+                     ('nothing-else', ' and '.join('same(self_final.%s, self.%s)' % (g, g) for g in others))],
             raises={})
         if trusted:
             C[PA + 'pop_' + f].update(trusted=True, bounded_by=trusted)
